@@ -464,6 +464,20 @@ def run_memory(ctx, P, cg):
                            "inflate() may read %s bytes from offset %s of a %s byte buffer" % (a_fmt(AI), a_fmt(offi), a_fmt(pe.alloc[pi])), pe)
             if e.kind in ("store", "call"):
                 _local_bounds(A, "C19.5 R-BOUND", g, pe, e)
+        # the grow-and-retry loop is left only when inflate() left room in the output buffer (zlib.h: avail_out == 0 on return
+        # means more output may be pending, whatever the return code - Z_BUF_ERROR with Z_FINISH says exactly 'more room'),
+        # or on a hard error of inflate(), which tears the stream down
+        infl = [e for e in pe.events if e.kind == "call" and e.data["callee"] == "inflate"]
+        rets_ = [e for e in pe.events if e.kind == "ret"]
+        if infl and rets_:
+            last = infl[-1]
+            hard = any(e.kind == "call" and e.data["callee"] == "inflateEnd" and e.pos > last.pos for e in pe.events)
+            AO = _zval(rets_[-1].mem, "avail_out")
+            A.need("C19.5 R-PROTO", g, "inflate:loop-left-only-with-room-or-hard-error",
+                   hard or (AO is not None and pe.entails(AO, strict=True, upto=rets_[-1].pos)),
+                   "private_decompress() leaves the inflate loop although avail_out may be 0 and inflate() reported no hard error: the "
+                   "output buffer is full, the rest of the message has not been produced (a message that inflates to more than the "
+                   "first buffer is refused or cut)", pe)
     if ninfl < 2:
         raise AnalysisBroken("private_decompress: inflate() call instances on paths: %d" % ninfl)
     # ---- C19.6 deflate side ----
@@ -683,6 +697,20 @@ def run_memory(ctx, P, cg):
     ctx.ob("C19.7 R-WHO", P.fn("websocket.c:websocket_init"), "compression-level-written-at-construction-only", writers == ["websocket_init"],
            "extension_compression.compression_level is written by %s: after the extension has been announced (accepted, RSV1 expected) a "
            "changed level makes the receive and send paths skip (de)compression while the frames still carry compressed data" % writers)
+    # the streams live exactly as long as 'accepted' says: alloc_compression() is called where accepted is set (negotiation,
+    # i.e. BEFORE the upgrade completes), so the release in websocket_close() depends on that flag alone - any further
+    # condition (upgrade complete, status code) leaks both zlib streams of a connection that ends between the two
+    wc = P.fn("websocket.c:websocket_close")
+    nfree = 0
+    for c in wc.calls("free_compression"):
+        nfree += 1
+        other = [(a, p) for (a, p) in Q.guards_of(P, wc, c.block)
+                 if not Q.mentions(a[1] if a[0] == "truth" else a[2], lambda x: x[0] == "field" and x[3] == "accepted")]
+        ctx.ob("C19.4 R-PAIR", wc, Q.ordinal_site(wc, c, P) + ":streams-released-whenever-accepted", not other,
+               "websocket_close() releases the zlib streams only under the further condition %s; they were created when the offer was "
+               "accepted, before the upgrade was complete" % "; ".join(fmt_atom(a, p) for (a, p) in other[:2]))
+    if nfree < 1:
+        raise AnalysisBroken("websocket_close: call of free_compression not found")
     ctx.floor("C19.7 R-PAIR", 2)
     ctx.floor("C19.3 R-BOUND", 3)
     ctx.floor("C19.3 R-CURSOR", 5)
